@@ -282,6 +282,7 @@ type opRec struct {
 	ret     int64
 	err     error
 	readVal string
+	want    *api.Pin // for pins: the submitted pin as the state encoding stores it
 }
 
 type regIn struct {
@@ -377,10 +378,22 @@ func run(c *fw.Ctx, idx int) {
 		var pin *api.Pin
 		if kind == "pin" {
 			pin = genPin(rr, ci, vseq, n)
-		} else {
+		} else if rr.Intn(2) == 0 {
 			pin = api.PinCid(gen.UCid(ci))
+		} else {
+			// Cluster.Unpin hands the stored (rich) pin to LogUnpin
+			pin = genPin(rr, ci, "unpin-"+vseq, n)
 		}
 		rec := opRec{seq: s, proc: proc, member: mi, kind: kind, c: ci, vseq: vseq, call: time.Now().UnixNano()}
+		if kind == "pin" {
+			// what the state must hold for this write: the submitted pin through the state's own encoding
+			if b, err := pin.ProtoMarshal(); err == nil {
+				w := &api.Pin{}
+				if w.ProtoUnmarshal(b) == nil {
+					rec.want = w
+				}
+			}
+		}
 		cctx, cancel := context.WithTimeout(ctx, 20*time.Second)
 		method := "LogPin"
 		if kind == "unpin" {
@@ -811,6 +824,33 @@ func checkJournals(ctx context.Context, c *fw.Ctx, cl *cluster, hist []opRec, ac
 	for i, m := range cl.members {
 		if m.alive {
 			journals[i] = journalOf(m)
+		}
+	}
+	// every stored entry is the pin that was submitted under its write id
+	want := map[string]*api.Pin{}
+	for _, h := range hist {
+		if h.want != nil {
+			want[h.vseq] = h.want
+		}
+	}
+	for i, es := range journals {
+		for _, e := range es {
+			if e.op != "put" || e.pin == nil {
+				continue
+			}
+			w := want[e.vseq]
+			if w == nil {
+				continue
+			}
+			c.Eval("stored-vs-submitted/" + e.kind)
+			if d := mon.DeepEq(w, e.pin, nil); d != "" {
+				field := d
+				if k := strings.Index(d, ":"); k > 0 {
+					field = d[:k]
+				}
+				c.Violation("C01/stored-pin-differs-from-submitted/"+e.kind+"/"+field,
+					fmt.Sprintf("p%d stored write %s differently from what was submitted: %s", i, e.vseq, d), nil)
+			}
 		}
 	}
 	// order compatibility of write ids between every pair
